@@ -25,8 +25,13 @@ CLAIMED = {
          "boundedness of the new position in array-backed readers, one increment per returned frame in sequential readers, reopen "
          "consistency, per-instance cursor state, and restoration of the C file position by the offset scan. Arbitrary histories "
          "(linearizability) are a run-time notion and are not decided.", _NOTE, "DESIGN.md §4 C18"),
+ "C02": ("sibling protocol comparison over all registered loaders / file classes (argument plumbing, stride idiom classification, cursor-vs-window, affine time shape, subset pairing, iterload branch table)",
+         "The protocol every reader must follow for partial loading to equal slicing is decided for all 12 registered loader/file-class pairs: "
+         "frame/stride/atom_indices/n_frames reach read(); the stride scales the consumed window; the cursor ends at the window; synthesised time "
+         "is affine in the absolute frame index; topology and coordinates are subset together; every iterload branch honours skip/stride/"
+         "atom_indices/chunk. Equality of the values is run-time and not decided.", _NOTE, "DESIGN.md §4 C02"),
 }
 _PENDING = "check not built yet in this round (design in DESIGN.md §4); will be claimed when its rules run clean"
-NA = {k: _PENDING for k in ["C01","C02","C05","C06","C07","C08","C09","C10","C11","C12","C13","C14","C15","C17"]}
+NA = {k: _PENDING for k in ["C01","C05","C06","C07","C08","C09","C10","C11","C12","C13","C14","C15","C17"]}
 NA["C16"] = ("every clause is numerical equality of computed arrays with closed-form expressions; no structural "
              "necessary condition covers more than one of the fifteen functions (DESIGN.md §5)")
